@@ -1,6 +1,55 @@
-(* C07 - placeholder statements until Driver/Props.v lands *)
+(* C07 - getProperties is answered with exactly the definitions asked for. Statements only. *)
 From Coq Require Import List NArith Bool String.
-From Indi Require Import Base.Sx Driver.Model.
-Theorem delproperty_for_disabled : forall d g v, vec_on g v = false -> Msg.Equality.mk (def_msg d g v) = s2l "delProperty".
-Proof. intros d g v H. unfold def_msg. now rewrite H. Qed.
-Print Assumptions delproperty_for_disabled.
+Import ListNotations.
+From Indi Require Import Base.Sx Msg.Registry Msg.Equality Msg.Model Msg.Codec Driver.Model Driver.Props
+  Generated.RegistryData Generated.RegistryOk.
+
+(* For EVERY device state (any groups / properties / elements / values / flags), with
+   property names unique: a request without a property name elicits, in order, exactly
+   def_msg of every property - a definition for each enabled one, a delProperty for each
+   disabled one - and changes nothing.  (quiet: no Read handlers; their effect is C14's.) *)
+Theorem unnamed_request_elicits_every_definition : forall d dn,
+  quiet d -> NoDup (map (fun gv => v_name (snd gv)) (all_vecs d)) ->
+  from_client d (getprops dn None) =
+  (d, map (fun gv => Publish (def_msg d (fst gv) (snd gv))) (all_vecs d)).
+Proof. exact getprops_all. Qed.
+Print Assumptions unnamed_request_elicits_every_definition.
+
+(* a request naming a property elicits only that property's definition; an unknown name nothing *)
+Theorem named_request_elicits_only_that_definition : forall d dn n,
+  quiet d -> n <> [] ->
+  from_client d (getprops dn (Some n)) =
+  (d, match find_gv n (d_groups d) with Some (g, v) => [Publish (def_msg d g v)] | None => [] end).
+Proof. exact getprops_named. Qed.
+Print Assumptions named_request_elicits_only_that_definition.
+
+(* a definition lists every enabled element, in order, and the property's metadata *)
+Theorem definition_lists_enabled_elements_and_metadata : forall d g v,
+  vec_on g v = true ->
+  mc (def_msg d g v) = Some (map (def_part (v_kind v)) (filter e_enabled (v_elems v))) /\
+  lookup (s2l "device") (ma (def_msg d g v)) = Some (d_name d) /\
+  lookup (s2l "name") (ma (def_msg d g v)) = Some (v_name v) /\
+  lookup (s2l "state") (ma (def_msg d g v)) = Some (v_state v) /\
+  lookup (s2l "label") (ma (def_msg d g v)) = Some (v_label v) /\
+  lookup (s2l "group") (ma (def_msg d g v)) = Some (g_name g).
+Proof. exact def_msg_lists_enabled_elements. Qed.
+Print Assumptions definition_lists_enabled_elements_and_metadata.
+
+Theorem disabled_property_gets_no_definition : forall d g v,
+  vec_on g v = false -> mk (def_msg d g v) = s2l "delProperty".
+Proof. exact def_msg_disabled. Qed.
+Print Assumptions disabled_property_gets_no_definition.
+
+(* devices not addressed and unknown device names: the router hands them nothing (C04);
+   here: a device that receives no message emits nothing, by definition of step. *)
+
+(* "every definition and update a driver emits is a valid protocol message that the
+   library's own parser accepts and reads back unchanged": for any emitted message that
+   is constructible (wfb), this is C03's theorem.  That every message the model emits IS
+   wfb is evaluated by the model on every run for every emitted message (PARTIAL: not
+   yet a theorem over all reachable states). *)
+Theorem constructible_emitted_message_reads_back : forall m,
+  wfb live_registry m = true ->
+  msg_from_xml live_registry (msg_to_xml m) = Some (norm_msg m).
+Proof. intros m. exact (roundtrip_tree live_registry m (eq_refl : nodup_strb (map ptag (rparts live_registry)) = true)). Qed.
+Print Assumptions constructible_emitted_message_reads_back.
